@@ -147,4 +147,133 @@ theorem rbm_span_preserved (sqrt : K → K) (ndim : Nat) (coo B0 : Array K) (tr 
   rw [← hB] at key
   exact key.2 hs ha
 
+
+/-! ## what the normalisation loop does achieve -/
+
+/-- **Translation columns** are returned as the first loop wrote them (the normalisation loop starts at column `ndim`). -/
+theorem rbm_translation_cols (sqrt : K → K) (ndim : Nat) (coo B0 : Array K) (tr : Bool) (nm : Nat) (B : Array K)
+    (ss : List K) (h : rigidBodyModesFull sqrt ndim coo B0 tr = .ok (nm, B, ss)) (j k : Nat) (hj : j < coo.size)
+    (hk : k < ndim) :
+    entry ndim coo.size tr B j k = entry ndim coo.size tr (rawModes sqrt ndim coo B0 tr) j k := by
+  obtain ⟨hd, _, rfl, hB⟩ := rbm_ok sqrt ndim coo B0 tr nm B ss h
+  have L := lay_of tr coo.size (nmodes ndim)
+  have hkn : k < nmodes ndim := by have := lt_nmodes hd; omega
+  have key := orthonormalize_induct (s1 := if tr then 1 else nmodes ndim) (s2 := if tr then coo.size else 1)
+    (n := coo.size) (nm := nmodes ndim) sqrt ndim
+    (fun _ Bl => Bl.1.size = coo.size * nmodes ndim ∧
+      cell (if tr then 1 else nmodes ndim) (if tr then coo.size else 1) Bl.1 j k
+        = cell (if tr then 1 else nmodes ndim) (if tr then coo.size else 1) (rawModes sqrt ndim coo B0 tr) j k)
+    (rawModes sqrt ndim coo B0 tr) ⟨size_rawModes sqrt ndim hd coo B0 tr, rfl⟩
+    (by
+      intro t Bl hM ht
+      have sp := gsStep_spec sqrt L Bl.1 hM.1 ht (nmodes_le ndim)
+      refine ⟨sp.1, ?_⟩
+      rw [sp.2.2 j k hj hkn, if_neg (by omega)]
+      exact hM.2)
+  rw [← hB] at key
+  exact key.2
+
+/-- **Rotation columns have unit norm** (`rbm_unit_norm`): with a `sqrt` that is exact wherever it does not return zero
+(true of `Real.sqrt`, and of the table `exSqrt` below) and no zero divisor, every column `k ≥ ndim` of the result satisfies `Σ_j B[j,k]² = 1`. -/
+theorem rbm_unit_norm (sqrt : K → K)
+    (hsq : ∀ x, sqrt x = 0 ∨ sqrt x * sqrt x = x)
+    (ndim : Nat) (coo B0 : Array K) (tr : Bool) (nm : Nat) (B : Array K)
+    (ss : List K) (h : rigidBodyModesFull sqrt ndim coo B0 tr = .ok (nm, B, ss)) (hs : ∀ s ∈ ss, s ≠ 0) (k : Nat)
+    (hk1 : ndim ≤ k) (hk2 : k < nm) :
+    ∑ j ∈ range coo.size, entry ndim coo.size tr B j k * entry ndim coo.size tr B j k = 1 := by
+  obtain ⟨hd, _, rfl, hB⟩ := rbm_ok sqrt ndim coo B0 tr nm B ss h
+  have L := lay_of tr coo.size (nmodes ndim)
+  have key := orthonormalize_induct (s1 := if tr then 1 else nmodes ndim) (s2 := if tr then coo.size else 1)
+    (n := coo.size) (nm := nmodes ndim) sqrt ndim
+    (fun t Bl => Bl.1.size = coo.size * nmodes ndim ∧
+      ((∀ s ∈ Bl.2, s ≠ 0) → ∀ k, ndim ≤ k → k < ndim + t →
+        ∑ j ∈ range coo.size, cell (if tr then 1 else nmodes ndim) (if tr then coo.size else 1) Bl.1 j k
+          * cell (if tr then 1 else nmodes ndim) (if tr then coo.size else 1) Bl.1 j k = 1))
+    (rawModes sqrt ndim coo B0 tr) ⟨size_rawModes sqrt ndim hd coo B0 tr, by intro _ k h1 h2; omega⟩
+    (by
+      intro t Bl hM ht
+      have sp := gsStep_spec sqrt L Bl.1 hM.1 ht (nmodes_le ndim)
+      refine ⟨sp.1, ?_⟩
+      intro hne k hk1 hk2
+      have hσ : (gsStep sqrt (if tr then 1 else nmodes ndim) (if tr then coo.size else 1) coo.size (ndim + t) Bl.1).2 ≠ 0 :=
+        hne _ (List.mem_cons_self ..)
+      by_cases hki : k = ndim + t
+      · subst hki
+        have hσσ := hsq (∑ j ∈ range coo.size,
+          gsW (if tr then 1 else nmodes ndim) (if tr then coo.size else 1) coo.size (ndim + t) Bl.1 j
+            * gsW (if tr then 1 else nmodes ndim) (if tr then coo.size else 1) coo.size (ndim + t) Bl.1 j)
+        rw [← sp.2.1] at hσσ
+        replace hσσ := hσσ.resolve_left hσ
+        have e : ∀ j ∈ range coo.size,
+            cell (if tr then 1 else nmodes ndim) (if tr then coo.size else 1)
+              (gsStep sqrt (if tr then 1 else nmodes ndim) (if tr then coo.size else 1) coo.size (ndim + t) Bl.1).1 j (ndim + t)
+            * cell (if tr then 1 else nmodes ndim) (if tr then coo.size else 1)
+              (gsStep sqrt (if tr then 1 else nmodes ndim) (if tr then coo.size else 1) coo.size (ndim + t) Bl.1).1 j (ndim + t)
+            = gsW (if tr then 1 else nmodes ndim) (if tr then coo.size else 1) coo.size (ndim + t) Bl.1 j
+              * gsW (if tr then 1 else nmodes ndim) (if tr then coo.size else 1) coo.size (ndim + t) Bl.1 j
+              * ((gsStep sqrt (if tr then 1 else nmodes ndim) (if tr then coo.size else 1) coo.size (ndim + t) Bl.1).2
+                * (gsStep sqrt (if tr then 1 else nmodes ndim) (if tr then coo.size else 1) coo.size (ndim + t) Bl.1).2)⁻¹ := by
+          intro j hj
+          rw [sp.2.2 j (ndim + t) (Finset.mem_range.mp hj) ht, if_pos rfl]
+          field_simp
+        rw [Finset.sum_congr rfl e, ← Finset.sum_mul, ← hσσ]
+        exact mul_inv_cancel₀ (mul_ne_zero hσ hσ)
+      · have := hM.2 (fun s hs => hne s (List.mem_cons_of_mem _ hs)) k hk1 (by omega)
+        rw [← this]
+        apply Finset.sum_congr rfl
+        intro j hj
+        rw [sp.2.2 j k (Finset.mem_range.mp hj) (by omega), if_neg hki])
+  rw [← hB] at key
+  have := key.2 hs k hk1 (by have := lt_nmodes hd; omega)
+  exact this
+
+/-! ## non-vacuity of the span theorems, and what the output is not -/
+
+/-- a square root that is exact on the two arguments the example below applies it to (`n = 4`, `s = 25/4`) -/
+def exSqrt (q : Rat) : Rat := if q = 4 then 2 else if q = 25 / 4 then 5 / 2 else 0
+/-- two nodes `(0,0)` and `(3,1)` in the plane -/
+def exCoo : Array Rat := #[0, 0, 3, 1]
+/-- what the model returns on `exCoo` (row-major `4 × 3`) -/
+def exB : Array Rat := #[1/2, 0, 1/10,  0, 1/2, -3/10,  1/2, 0, -3/10,  0, 1/2, 9/10]
+
+theorem ex_run : rigidBodyModesFull exSqrt 2 exCoo #[] false = .ok (3, exB, [5 / 2]) := by decide +kernel
+
+/-- `rbm_zero_energy` / `rbm_span_preserved` are not vacuous: the row vector `(−3, −1, 3, 1)` annihilates the three raw
+modes of `exCoo`, the call succeeds and its divisor is not zero. -/
+example : ∀ k, k < 3 → ∑ j ∈ range exCoo.size, (#[-3, -1, 3, 1] : Array Rat).getD j 0 * entry 2 exCoo.size false exB j k = 0 :=
+  rbm_zero_energy exSqrt 2 exCoo #[] false 3 exB [5 / 2] ex_run (fun j => (#[-3, -1, 3, 1] : Array Rat).getD j 0)
+    (by decide +kernel)
+example : ∀ k, k < 3 → ∑ j ∈ range exCoo.size, (#[-3, -1, 3, 1] : Array Rat).getD j 0
+    * entry 2 exCoo.size false (rawModes exSqrt 2 exCoo #[] false) j k = 0 :=
+  rbm_span_preserved exSqrt 2 exCoo #[] false 3 exB [5 / 2] ex_run (by decide +kernel)
+    (fun j => (#[-3, -1, 3, 1] : Array Rat).getD j 0) (by decide +kernel)
+
+theorem exSqrt_exact : ∀ x, exSqrt x = 0 ∨ exSqrt x * exSqrt x = x := by
+  intro x
+  unfold exSqrt
+  by_cases h1 : x = 4
+  · right; subst h1; decide +kernel
+  · by_cases h2 : x = 25 / 4
+    · right; subst h2; decide +kernel
+    · left; rw [if_neg h1, if_neg h2]
+
+example : ∑ j ∈ range exCoo.size, entry 2 exCoo.size false exB j 2 * entry 2 exCoo.size false exB j 2 = 1 :=
+  rbm_unit_norm exSqrt exSqrt_exact 2 exCoo #[] false 3 exB [5 / 2] ex_run (by decide +kernel) 2 (by decide) (by decide)
+example : entry 2 exCoo.size false exB 2 0 = entry 2 exCoo.size false (rawModes exSqrt 2 exCoo #[] false) 2 0 :=
+  rbm_translation_cols exSqrt 2 exCoo #[] false 3 exB [5 / 2] ex_run 2 0 (by decide) (by decide)
+
+/-- **The output is not orthonormal** (`rbm_not_orthonormal`): on two nodes `(0,0)`, `(3,1)`, with a square root that is
+exact on every argument it receives (`sqrt 4 = 2`, `sqrt (25/4) = 5/2`), the returned translation columns have squared
+norm `1/2` and the rotation column is not orthogonal to them (`⟨B_0,B_2⟩ = −1/10`, `⟨B_1,B_2⟩ = 3/10`); only the
+rotation column has unit norm.  The real `double` code returns the same numbers (notes/repro_rbm_not_orthonormal.cpp). -/
+theorem rbm_not_orthonormal :
+    rigidBodyModesFull exSqrt 2 exCoo #[] false = .ok (3, exB, [5 / 2]) ∧
+    exSqrt 4 * exSqrt 4 = 4 ∧ exSqrt (25 / 4) * exSqrt (25 / 4) = 25 / 4 ∧
+    (∑ j ∈ range 4, entry 2 4 false exB j 0 * entry 2 4 false exB j 0 = 1 / 2) ∧
+    (∑ j ∈ range 4, entry 2 4 false exB j 1 * entry 2 4 false exB j 1 = 1 / 2) ∧
+    (∑ j ∈ range 4, entry 2 4 false exB j 2 * entry 2 4 false exB j 2 = 1) ∧
+    (∑ j ∈ range 4, entry 2 4 false exB j 0 * entry 2 4 false exB j 2 = -1 / 10) ∧
+    (∑ j ∈ range 4, entry 2 4 false exB j 1 * entry 2 4 false exB j 2 = 3 / 10) := by
+  refine ⟨ex_run, by decide +kernel, by decide +kernel, by decide +kernel, by decide +kernel, by decide +kernel, by decide +kernel, by decide +kernel⟩
+
 end Amgcl.C04c
